@@ -11,7 +11,7 @@ def check(rep):
     ER.rule_installed_function(ctx)
     ER.rule_init_delegates(ctx)
     ER.rule_call_forwards(ctx, rid="C11.CALL-FORWARDS")
-    ER.rule_fresh_per_parse(ctx, rid="C11.FRESH-PER-PARSE")
+    ER.rule_fresh_per_parse(ctx, rid="C11.FRESH-LEXER-PER-PARSE", kinds=("Lexer",))
     ER.rule_value_keyed_caches(ctx, rid="C11.NO-VALUE-KEYED-CACHE", modules={"experiment_evaluator.py", "utils/wraper_functions.py"})
     return ("Commit-point ordering by path enumeration of recompile(): on every path all may-raise statements precede all state "
             "writes (so a raising recompile has written nothing and raises again next time); the only skip is an exact fingerprint "
